@@ -78,15 +78,15 @@ class HistoryRunner:
                 cfg['discipline'] = bool(seed & 1)
             ctx.count('histories_disciplined_client' if cfg['discipline'] else 'histories_hostile_client')
             fz = self.fz = Fuzzer(w, random.Random(seed ^ 0x5EED), cfg)
-            if self.setup is not None:
-                await self.setup(self, w, fz)
-
             def hook(db, conn):
                 v = View(db)
                 for m in self.monitors:
                     m.on_commit(v)
                 ctx.count('commits_checked')
             w.engine.commit_hooks.append(hook)
+            if self.setup is not None:
+                self.cur_op = -1
+                await self.setup(self, w, fz, rng)
             try:
                 for k in range(self.n_ops):
                     self.cur_op = k
